@@ -466,6 +466,12 @@ func (p *VipnodePool) requestHosts(ctx context.Context, nodeID string, numReques
 		logger.Printf("Request kind=%q hosts: %q (%d hosts found, %d accepted)", kind, pretty.Abbrev(nodeID), len(remotes), len(accepted))
 	}
 
+	if len(accepted) > numRequestHosts {
+		// We query more candidates than requested to make up for the ones we
+		// skip, so more of them may have accepted than were asked for.
+		accepted = accepted[:numRequestHosts]
+	}
+
 	if len(accepted) >= 1 {
 		// We're okay returning without an error as long as some hosts succeeded.
 		return accepted, nil
